@@ -16,6 +16,26 @@ def fmt_num(v, rng=None, style=None):
     """A lexical form for float v that denotes exactly v."""
     if style is None:
         style = rng.choice(("plain", "plain", "plain", "exp", "lead", "plus", "dot")) if rng else "plain"
+    if style == "exp" and rng is not None and v == v and abs(v) not in (0.0, float("inf")):
+        # every exponent spelling of the grammar: e / E, explicit + or -, zero-padded digits
+        for _ in range(4):
+            k = rng.randint(1, 3)
+            e = rng.choice("eE")
+            if rng.random() < 0.5:
+                m, x = float(v) / 10 ** k, rng.choice(("+", "+", "")) + rng.choice(("", "0")) + str(k)
+            else:
+                m, x = float(v) * 10 ** k, "-" + rng.choice(("", "0")) + str(k)
+            ms = repr(m)
+            if "e" in ms or "inf" in ms or "nan" in ms:
+                continue
+            if ms.endswith(".0") and rng.random() < 0.7:
+                ms = ms[:-2]
+            text = ms + e + x
+            try:
+                if float(text) == float(v):
+                    return text
+            except ValueError:
+                pass
     if isinstance(v, int) or float(v).is_integer():
         iv = int(v)
         if style == "dot":
